@@ -12,6 +12,11 @@ ASSUME = ["one event-time tumbling batch with 3-4 groups closed by a flush row; 
 FNS = ["sum", "avg", "min", "max", "count"]
 
 
+def aggref_mul(fn, c, k):
+    """the aggregate's argument is the column times a literal (sum(v * 2)): evaluated per row before aggregation"""
+    return {"t": "col", "c": "%s_m%d_%s" % (fn, k, c), "_fn": fn, "_arg": "%s * %d" % (c, k), "_col": c, "_mul": k}
+
+
 def aggref(fn, c, absf=False):
     if absf:        # the aggregate's argument is abs(column): evaluated per row before aggregation
         return {"t": "col", "c": "%s_abs_%s" % (fn, c), "_fn": fn, "_arg": "abs(%s)" % c, "_col": c, "_abs": 1}
@@ -56,7 +61,7 @@ def strip(e):
 def collect(e, acc):
     if isinstance(e, dict):
         if "_fn" in e:
-            acc[e["c"]] = {"key": e["c"], "fn": "count" if e["_fn"] == "count" else e["_fn"], "arg": e.get("_col", e["_arg"]), "abs": e.get("_abs", 0), "p": e.get("_p", 0)}
+            acc[e["c"]] = {"key": e["c"], "fn": "count" if e["_fn"] == "count" else e["_fn"], "arg": e.get("_col", e["_arg"]), "abs": e.get("_abs", 0), "p": e.get("_p", 0), "mul": e.get("_mul", 0)}
         for v in e.values():
             collect(v, acc)
     elif isinstance(e, list):
@@ -82,11 +87,17 @@ def item(rng, shape):
     if shape == 10:    # two calls of a PARAMETERISED aggregate over one column that differ in the parameter only
         n1, n2 = rng.sample([1, 2, 3], 2)
         return {"t": "bin", "op": rng.choice(["-", "*", "-"]), "a": aggref_nth(rng.choice(["v", "w"]) if False else "w", n1), "b": aggref_nth("w", n2)}
+    if shape == 11:    # aggregates over ARITHMETIC arguments inside an arithmetic item: sum(v * 2) - sum(w * 3), 2 * max(v * 3)
+        f1, f2 = rng.choice(["sum", "max", "min", "avg"]), rng.choice(["sum", "max", "min"])
+        if rng.random() < 0.4:
+            return {"t": "bin", "op": rng.choice(["*", "+", "-"]), "a": num(rng.choice([2, 3])), "b": aggref_mul(f1, "w", rng.choice([2, 3]))}
+        return {"t": "bin", "op": rng.choice(["-", "+", "*"]), "a": aggref_mul(f1, "w", rng.choice([2, 3])), "b": aggref_mul(f2, "w", rng.choice([4, 5]))}
     if shape == 6: return {"t": "bin", "op": "+", "a": num(1), "b": {"t": "bin", "op": "*", "a": num(2), "b": a}}      # 1 + 2*agg(x)
     return {"t": "bin", "op": "+", "a": {"t": "bin", "op": "*", "a": a, "b": num(2)}, "b": num(1)}      # agg(x)*2+1
 
 
 def absv(x, d):
+    if d.get("mul") and x is not None: return x * d["mul"]
     return abs(x) if (d.get("abs") and x is not None) else x
 
 
@@ -136,7 +147,7 @@ def mk(rng, nsel, having_kind, norder, limit, distinct, tie_first=False):
     sel = []
     for k in range(nsel):
         # shapes 1 and 5 (an item that STARTS with one aggregate call followed by arithmetic, e.g. avg(v) + 3) are a pinned finding (AggThenArithmeticPerRow)
-        sel.append({"al": "c%d" % k, "e": item(rng, rng.choice([0, 2, 3, 4, 0, 2, 3, 4, 6, 8, 9, 10]))})
+        sel.append({"al": "c%d" % k, "e": item(rng, rng.choice([0, 2, 3, 4, 0, 2, 3, 4, 6, 8, 9, 10, 11]))})
     if distinct and not gsel and rng.random() < 0.5:
         # un-aliased plain aggregates (reported under their text, e.g. max(v)): DISTINCT still sees every delivered column
         sel = [{"al": "%s(%s)" % (f, c), "e": aggref(f, c), "unaliased": 1} for f, c in rng.sample([(f, c) for f in FNS for c in ("v", "w")], nsel)]
